@@ -116,7 +116,10 @@ func (c *controlConn) heartBeat() {
 		case error:
 			goto reconn
 		default:
-			panic(fmt.Sprintf("gocql: unknown frame in response to options: %T", resp))
+			// not an answer to OPTIONS: treat the control connection as broken
+			// instead of crashing the process from this background goroutine
+			c.session.logger.Printf("gocql: unknown frame in response to options: %T", resp)
+			goto reconn
 		}
 
 	reconn:
